@@ -83,3 +83,18 @@ Theorem wrong_arity_raises : forall ev cenv ps body nm args st,
   exists st', eval_closure ev (VClos cenv (VList true ps) body nm) args st = Er EEval st'.
 Proof. exact arity_mismatch_is_error. Qed.
 Print Assumptions wrong_arity_raises.
+
+(** fuel is only a bound of the model (proofs/FuelMono.v: every operator is monotone in the evaluator it is given —
+    one lemma per operator — hence by induction on the fuel): a completed evaluation is unchanged by more fuel, and
+    two completed evaluations of the same expression in the same state agree whatever their fuel.  So every theorem
+    stated "for fuel f" holds for all larger fuels, and out-of-fuel is never mistaken for a result. *)
+From WalModel.proofs Require FuelMono.
+Theorem more_fuel_never_changes_a_completed_evaluation : forall lf f g e st v st',
+  (f <= g)%nat -> eval lf f e st = Ok v st' -> eval lf g e st = Ok v st'.
+Proof. exact FuelMono.eval_fuel_monotone. Qed.
+Print Assumptions more_fuel_never_changes_a_completed_evaluation.
+
+Theorem completed_evaluations_agree_whatever_the_fuel : forall lf f g e st v1 s1 v2 s2,
+  eval lf f e st = Ok v1 s1 -> eval lf g e st = Ok v2 s2 -> v1 = v2 /\ s1 = s2.
+Proof. exact FuelMono.eval_fuel_irrelevant. Qed.
+Print Assumptions completed_evaluations_agree_whatever_the_fuel.
